@@ -3,6 +3,7 @@
    agreement with RFC 8032 is established by the correspondence (library = pyca = a transcription of RFC 8032
    section 6, on random seeds/messages and the section 7.1 vectors), not by a theorem. *)
 From CCT Require Import Prelude Hex Num Time Formats Json Auth Signing Keys.
+From CCT.Gen Require Pins.
 From CCT.Gen Require Params.
 From CCT.proofs Require Import HexFacts SigFacts AuthFacts SchemaFacts FamilyFacts SigningFacts KeyFacts.
 Open Scope N_scope.
@@ -78,6 +79,40 @@ Example C19_witness :
   /\ key_is_equivalent_to KPub (VPub (repeat 1 32)) (VPriv (repeat 1 32)) = Ok false.
 Proof. vm_compute. repeat split. Qed.
 
+(* BEGIN SOURCE PINS -- written by harness/mkpins.py; the list is what Gen/Pins.v held for the tree the model was validated against *)
+(* the functions of the package this property depends on (call-graph closure of its entry points), each with the fingerprint of its
+   logic (AST without docstrings, annotations, messages, local names): the model and the correspondence runs were validated against
+   exactly these; a change of logic in any of them breaks this obligation and the check then searches for a failing input *)
+Theorem C19_source_pinned : CCT.Gen.Pins.pinned_C19 =
+  [(U"common.MixinKey.from_hex", U"a6e4e81c0b16461490a5");
+   (U"common.MixinKey.is_equivalent_to", U"5700e1899e36ca2341bb");
+   (U"common.MixinKey.to_hex", U"fcdaef7ed3d503ba84df");
+   (U"common.PrivateKey.from_bytes", U"2cb488fc935b61f65bba");
+   (U"common.PrivateKey.to_bytes", U"c9564ea6ce46886b972b");
+   (U"common.PublicKey.from_bytes", U"a439db0d070397bc2b47");
+   (U"common.PublicKey.to_bytes", U"1167c2299d20a5c711f2");
+   (U"common.canonserialize", U"64fc1dee1d7349d7a920");
+   (U"common.checkformat_byteslike", U"1c9da61d15ff3a1a9f97");
+   (U"common.checkformat_gpg_fingerprint", U"86e3bb7e4431fb481dc5");
+   (U"common.checkformat_gpg_signature", U"a3c5515ffb8c9f6183ba");
+   (U"common.checkformat_hex_key", U"625afdf8f56eb4c97143");
+   (U"common.checkformat_hex_string", U"eac17f8be3d488d4b8a0");
+   (U"common.checkformat_key", U"d3466826154e389f099e");
+   (U"common.checkformat_signable", U"dbb8b00a3a3727e018da");
+   (U"common.checkformat_signature", U"d544854022da28dcc399");
+   (U"common.is_gpg_signature", U"f236e9c50126a7909e84");
+   (U"common.is_hex_signature", U"433f44075f931ec629d6");
+   (U"common.is_hex_string", U"35e6d253e0c21ac09fca");
+   (U"common.is_signable", U"6932517519189d75eb93");
+   (U"common.keyfiles_to_bytes", U"96ed1e86a62aee3958cf");
+   (U"common.keyfiles_to_keys", U"84cb11f022dcc5fd0923");
+   (U"metadata_construction.gen_and_write_keys", U"cf49f6783359093fe5b8");
+   (U"metadata_construction.gen_keys", U"c6a0faf684f393ba9bac");
+   (U"signing.serialize_and_sign", U"b494a1c320877296ecf6");
+   (U"signing.sign_signable", U"752f8700cfb513a4c6ba")].
+Proof. reflexivity. Qed.
+(* END SOURCE PINS *)
+
 Print Assumptions C19_bytes_roundtrip.
 Print Assumptions C19_hex_roundtrip.
 Print Assumptions C19_key_hex_key.
@@ -91,3 +126,4 @@ Print Assumptions C19_keyfile_roundtrip.
 Print Assumptions C19_lib_signs_pure_ed25519.
 Print Assumptions C19_hex_filed_is_pub.
 Print Assumptions C19_witness.
+Print Assumptions C19_source_pinned.
